@@ -12,6 +12,7 @@ package apiregserver
 
 import (
 	"bytes"
+	"errors"
 	"fmt"
 	"strings"
 
@@ -19,6 +20,10 @@ import (
 	"github.com/refraction-networking/conjure/internal/vlibc11"
 	"github.com/refraction-networking/conjure/pkg/registrars/dns-registrar/dns"
 	"github.com/refraction-networking/conjure/pkg/registrars/dns-registrar/msgformat"
+	"github.com/refraction-networking/conjure/pkg/regserver/dnsregserver"
+	pb "github.com/refraction-networking/conjure/proto"
+	"google.golang.org/protobuf/proto"
+	"google.golang.org/protobuf/types/known/anypb"
 )
 
 func c11Labels(labels [][]byte) string {
@@ -62,6 +67,20 @@ func (c *c11Reg) wireCase(m *dns.Message) {
 
 // trimSuffix as recvEncoded uses it: the labels in front of the domain, joined
 func (c *c11Reg) recvEncCase(n, domain dns.Name) {
+	c.parser("trimsuffix", "codec|trimsuffix|"+vlibc11.ShowName(n)+"|"+vlibc11.ShowName(domain), true, func() string {
+		prefix, ok := n.TrimSuffix(domain)
+		if !ok {
+			return "none"
+		}
+		return "ok " + vlibc11.ShowName(prefix)
+	})
+	for _, l := range n { // the model's upper-casing is byte-wise; bytes.ToUpper is that on ASCII only (elsewhere the text is not base32 anyway)
+		for _, b := range l {
+			if b >= 0x80 {
+				return
+			}
+		}
+	}
 	c.parser("recvenc", "codec|recvenc|"+vlibc11.ShowName(n)+"|"+vlibc11.ShowName(domain), true, func() string {
 		prefix, ok := n.TrimSuffix(domain)
 		if !ok {
@@ -170,4 +189,148 @@ func (c *c11Reg) writers() {
 		c.wireCase(m)
 	}
 	c.out.Note(fmt.Sprintf("C11 writers: %d accepted names in the pool", len(pool)))
+}
+
+// ---------------------------------------------------------------------------------------------
+// 3b'. dnsregserver.processRequest against its model (CJ/Model/DnsHandler.lean, `ingress|dnsreq`): the real handler in
+// front of a scripted processor that answers with every combination of response / no response / a response that
+// proto.Marshal refuses x error / no error, on request bytes that decode or not, with and without payload and
+// generation, with every source value.
+
+type c11ScriptReg struct {
+	resp  *pb.RegistrationResponse
+	err   error
+	calls []string
+}
+
+func (s *c11ScriptReg) RegisterUnidirectional(w *pb.C2SWrapper, src pb.RegistrationSource, addr []byte) error {
+	if w != nil && src == pb.RegistrationSource_DNS && addr == nil {
+		s.calls = append(s.calls, "uni")
+	} else {
+		s.calls = append(s.calls, fmt.Sprintf("uni(%v,%v,%x)", w != nil, src, addr))
+	}
+	return s.err
+}
+
+func (s *c11ScriptReg) RegisterBidirectional(w *pb.C2SWrapper, src pb.RegistrationSource, addr []byte) (*pb.RegistrationResponse, error) {
+	if w != nil && src == pb.RegistrationSource_BidirectionalDNS && addr == nil {
+		s.calls = append(s.calls, "bd")
+	} else {
+		s.calls = append(s.calls, fmt.Sprintf("bd(%v,%v,%x)", w != nil, src, addr))
+	}
+	return s.resp, s.err
+}
+
+func (c *c11Reg) dnsHandlerCase(b []byte, latest uint32, respKind int, regErr bool) {
+	// the parameters of the model, from a decoding of our own
+	wl := "X"
+	w := &pb.C2SWrapper{}
+	if proto.Unmarshal(b, w) == nil {
+		pl := "N"
+		if w.RegistrationPayload != nil {
+			pl = "PN"
+			if w.RegistrationPayload.DecoyListGeneration != nil {
+				pl = fmt.Sprintf("P%d", *w.RegistrationPayload.DecoyListGeneration)
+			}
+		}
+		wl = pl + ";" + vlib.B(w.GetRegistrationSource() == pb.RegistrationSource_BidirectionalDNS)
+	}
+	script := &c11ScriptReg{}
+	respF, marshals := "N", true
+	switch respKind {
+	case 1:
+		script.resp = &pb.RegistrationResponse{Ipv4Addr: proto.Uint32(7 + latest)}
+	case 2: // a string that is not UTF-8 inside the Any: proto.Marshal refuses the message
+		script.resp = &pb.RegistrationResponse{Ipv4Addr: proto.Uint32(9), TransportParams: &anypb.Any{TypeUrl: "\xff"}}
+	}
+	if script.resp != nil {
+		respF = fmt.Sprint(script.resp.GetIpv4Addr())
+		_, merr := proto.Marshal(script.resp)
+		marshals = merr == nil
+	}
+	if regErr {
+		script.err = errors.New("scripted")
+	}
+	line := fmt.Sprintf("ingress|dnsreq|%s|%d|%s|%s|%s", wl, latest, respF, vlib.B(marshals), vlib.B(regErr))
+	s := dnsregserver.NewVerifDNSRegServerOn(script, latest, c.logger, c.m)
+	var ans string
+	res := vlibc11.Guard(func() {
+		out, err := s.VerifProcessRequest(b)
+		call := "-"
+		if len(script.calls) > 0 {
+			call = strings.Join(script.calls, "+")
+		}
+		if err != nil || out == nil {
+			ans = "err call=" + call
+			if err == nil || out != nil {
+				ans = fmt.Sprintf("odd out=%x err=%v call=%s", out, err, call)
+			}
+			return
+		}
+		d := &pb.DnsResponse{}
+		if uerr := proto.Unmarshal(out, d); uerr != nil {
+			ans = "undecodable " + vlib.Hex(out)
+			return
+		}
+		bd := "N"
+		if d.BidirectionalResponse != nil {
+			bd = fmt.Sprint(d.BidirectionalResponse.GetIpv4Addr())
+		}
+		ans = fmt.Sprintf("resp success=%s outdated=%s bd=%s call=%s", vlib.B(d.GetSuccess()), vlib.B(d.GetClientconfOutdated()), bd, call)
+	})
+	c.out.Checked()
+	if res.Hang {
+		ans = "hang"
+	} else if res.Panic != "" {
+		ans = "panic " + res.Panic
+	}
+	c.out.Case(line, ans, strings.HasPrefix(ans, "resp"))
+	c.out.Count("dnsreq:" + strings.Fields(ans + " x")[0] + ":" + strings.SplitN(wl, ";", 2)[0][:1])
+	if res.Bad() {
+		c.fail("dns-handler", res, line+"|"+vlib.Hex(b))
+	}
+}
+
+func (c *c11Reg) dnsHandler() {
+	gens := []uint32{0, 1, 956, 957, 958, 1000000, 4294967295}
+	one := func(b []byte) {
+		c.dnsHandlerCase(b, gens[c.r.Intn(len(gens))], c.r.Intn(3), c.r.Chance(1, 3))
+	}
+	// the corners by hand: empty request (decodes to a wrapper without payload), payload without generation,
+	// generation at, below and above the registrar's, each source value, against every script
+	var corners [][]byte
+	corners = append(corners, nil, []byte{0xff}, vlibc11.Marshal(&pb.C2SWrapper{RegistrationPayload: &pb.ClientToStation{}}))
+	for _, g := range []uint32{0, 956, 957, 958, 4294967295} {
+		for _, src := range []pb.RegistrationSource{pb.RegistrationSource_Unspecified, pb.RegistrationSource_DNS, pb.RegistrationSource_BidirectionalDNS,
+			pb.RegistrationSource_API, pb.RegistrationSource(77)} {
+			src := src
+			corners = append(corners, vlibc11.Marshal(&pb.C2SWrapper{SharedSecret: c.r.Bytes(32), RegistrationSource: &src,
+				RegistrationPayload: &pb.ClientToStation{DecoyListGeneration: proto.Uint32(g)}}))
+		}
+	}
+	for _, b := range corners {
+		for _, latest := range []uint32{0, 957} {
+			for kind := 0; kind < 3; kind++ {
+				c.dnsHandlerCase(b, latest, kind, false)
+				c.dnsHandlerCase(b, latest, kind, true)
+			}
+		}
+	}
+	for i := 0; i < vlib.Budget(1500, 25000); i++ {
+		var b []byte
+		switch c.r.Intn(4) {
+		case 0:
+			b = c.r.Bytes(c.r.Intn(40))
+		case 1:
+			b = c.g.Mutate(vlibc11.Marshal(c.g.Wrapper(c.r.Intn(4))))
+		default:
+			w := c.g.Wrapper(c.r.Intn(4))
+			if w != nil && c.r.Bool() {
+				src := []pb.RegistrationSource{pb.RegistrationSource_BidirectionalDNS, pb.RegistrationSource_DNS}[c.r.Intn(2)]
+				w.RegistrationSource = &src
+			}
+			b = vlibc11.Marshal(w)
+		}
+		one(b)
+	}
 }
